@@ -380,6 +380,9 @@ func (s *Sim) admin(line, payload string) (reply string, drop bool) {
 	idx := s.cmdIdx
 	s.cmdIdx++
 	fault := s.FaultAt[idx]
+	if fault == "commitfail" && !strings.HasPrefix(line, "commit ssl cert") {
+		fault = ""
+	}
 	logit := func(r string) {
 		t := line
 		if payload != "" {
